@@ -387,42 +387,156 @@ def emit_pmap(tree):
   bl = [s for s in _body(run) if isinstance(s, ast.For)]
   _need(len(bl) == 1 and _src(bl[0].iter) == '_blockify(clients, block_size)' and _is_name(bl[0].target, 'block'),
         'for block in _blockify(clients, block_size)')
-  il = [s for s in bl[0].body if isinstance(s, ast.For) and _src(s.iter) == 'range(len(block.client_id))']
-  _need(len(il) == 1 and isinstance(il[0].target, ast.Name) and len(il[0].body) == 3, 'for i in range(len(block.client_id)): (3 statements)')
-  iv = il[0].target.id
-  ctx = LenCtx()
-  sk = il[0].body[0]
-  ok = (isinstance(sk, ast.If) and not sk.orelse and len(sk.body) == 1 and isinstance(sk.body[0], ast.Continue))
-  _need(ok, 'if not block.client_mask[i]: continue')
-  skip = ctx.expr(sk.test, {'client_mask_' + iv: 'bool'}, 'bool')[0]
-  out.append('(* if %s: continue *)\nDefinition pmap_skip (client_mask_%s : bool) : bool := %s.' % (_src(sk.test), iv, skip))
-  sp = il[0].body[1]
-  ok = (isinstance(sp, ast.Assign) and _src(sp.targets[0]) == '(client_output, step_results)' and
-        isinstance(sp.value, ast.Call) and dotted(sp.value.func) == 'jax.tree_util.tree_map' and len(sp.value.args) == 2 and
-        _src(sp.value.args[0]) == 'lambda x: x[%s]' % iv and _src(sp.value.args[1]) == '(p_client_output, p_step_results)')
-  _need(ok, 'client_output, step_results = tree_map(lambda x: x[i], (p_client_output, p_step_results))')
-  ap = il[0].body[2]
-  ok = (isinstance(ap, ast.Expr) and isinstance(ap.value, ast.Call) and dotted(ap.value.func) == 'outputs.append' and
-        len(ap.value.args) == 1 and isinstance(ap.value.args[0], ast.Tuple) and len(ap.value.args[0].elts) == 3 and
-        _src(ap.value.args[0].elts[0]) == 'block.client_id[%s]' % iv and _is_name(ap.value.args[0].elts[1], 'client_output'))
-  _need(ok, 'outputs.append((block.client_id[i], client_output, step_results[...]))')
-  sl = ap.value.args[0].elts[2]
-  ok = (isinstance(sl, ast.Subscript) and _is_name(sl.value, 'step_results') and isinstance(sl.slice, ast.Slice) and
-        sl.slice.step is None and sl.slice.upper is not None)
-  _need(ok, 'step_results[lo:hi]')
-  envs = {'num_batches_' + iv: 'Z'}
-  lo = '0' if sl.slice.lower is None else ctx.expr(sl.slice.lower, envs, 'Z')[0]
-  hi = ctx.expr(sl.slice.upper, envs, 'Z')[0]
-  out.append('(* %s *)\nDefinition pmap_truncate {A : Type} (step_results : list A) (num_batches_%s : Z) : list A :=\n'
-             '  py_slice step_results %s %s.' % (_src(sl), iv, lo, hi))
-  # every output is yielded exactly once: outputs.reverse(); for _ in range(len(outputs)): ... outputs.pop() ... yield
-  tail = [_src(s) for s in bl[0].body]
-  _need('outputs.reverse()' in tail, 'outputs.reverse()')
-  yl = [s for s in bl[0].body if isinstance(s, ast.For) and _src(s.iter) == 'range(len(outputs))']
-  ok = (len(yl) == 1 and len(yl[0].body) == 3 and _src(yl[0].body[0]) == 'client_id, client_output, step_results = outputs.pop()' and
-        _src(yl[0].body[2]) == 'yield (client_id, client_output, step_results)')
-  _need(ok, 'for _ in range(len(outputs)): pop, device_put, yield (client_id, client_output, step_results)')
+  out.append(_emit_split(bl[0].body, out))
   return '\n\n'.join(out)
+
+
+class SplitCtx(LenCtx):
+  """`len(block.<field>)` / `len(<name>)` -> len_<field|name>; `block.<field>[e]` -> the
+  variable <field>_i, recording the translated index expression e per field."""
+
+  def __init__(self):
+    super().__init__()
+    self.idx = {}
+
+  def call(self, e, env):
+    if dotted(e.func) == 'len' and len(e.args) == 1 and isinstance(e.args[0], ast.Attribute) and \
+        _is_name(e.args[0].value, 'block') and not e.keywords:
+      n = 'len_' + e.args[0].attr
+      if n in env:
+        return n, env[n]
+      raise Unsupported('len() of ' + _src(e.args[0]))
+    return super().call(e, env)
+
+  def _expr(self, e, env):
+    if isinstance(e, ast.Subscript) and isinstance(e.value, ast.Attribute) and _is_name(e.value.value, 'block') and \
+        not isinstance(e.slice, ast.Slice):
+      f = e.value.attr
+      ix, _ = self.expr(e.slice, env, 'Z')
+      if f in self.idx and self.idx[f] != ix:
+        raise Unsupported('block.%s indexed in two different ways' % f)
+      self.idx[f] = ix
+      n = f + '_i'
+      if n in env:
+        return n, env[n]
+      raise Unsupported('subscript ' + _src(e))
+    return Ctx._expr(self, e, env)
+
+
+def _emit_split(stmts, out):
+  """GENERATES the output-splitting code of the pmap backend's `run` (the body of
+  `for block in _blockify(...)`): run_block, outputs = [], the per-lane loop (skip test,
+  x[i] split, append with the step-result slice), del, outputs.reverse(), the pop / yield
+  loop -- statement by statement, as one Gallina definition `pmap_emit` (plus its pieces
+  pmap_skip / pmap_truncate).  An edit of any of these statements changes the text."""
+  ctx = SplitCtx()
+  lets = []
+  st = list(stmts)
+  _need(st and _src(st[0]) == 'p_client_output, p_step_results = run_block(p_shared_input, block)',
+        'p_client_output, p_step_results = run_block(p_shared_input, block)')
+  _need(len(st) > 1 and _src(st[1]) == 'outputs = []', 'outputs = []')
+  lets.append('let outputs := [] in')
+  seen_loop = seen_yield = False
+  for s in st[2:]:
+    if isinstance(s, ast.Delete):
+      for t in s.targets:
+        _need(isinstance(t, ast.Name) and t.id in ('p_client_output', 'p_step_results'), 'del of the sharded arrays only')
+      continue
+    if isinstance(s, ast.Expr) and _src(s) == 'outputs.reverse()':
+      _need(seen_loop and not seen_yield, 'outputs.reverse() between the two loops')
+      lets.append('let outputs := rev outputs in')
+      continue
+    if isinstance(s, ast.For) and not seen_loop:
+      seen_loop = True
+      _need(isinstance(s.target, ast.Name) and not s.orelse and isinstance(s.iter, ast.Call) and dotted(s.iter.func) == 'range'
+            and 1 <= len(s.iter.args) <= 3 and len(s.body) == 3, 'for i in range(len(block.client_id)): (3 statements)')
+      iv = s.target.id
+      env0 = {'len_client_id': 'Z', 'len_client_mask': 'Z', 'len_num_batches': 'Z'}
+      ra = [ctx.expr(a, env0, 'Z')[0] for a in s.iter.args]
+      ra = ['0', ra[0], '1'] if len(ra) == 1 else ra + ['1'] if len(ra) == 2 else ra
+      env = dict(env0)
+      env[iv] = 'Z'
+      sk, sp, ap = s.body
+      ok = (isinstance(sk, ast.If) and not sk.orelse and len(sk.body) == 1 and isinstance(sk.body[0], ast.Continue))
+      _need(ok, 'if not block.client_mask[i]: continue')
+      envm = dict(env)
+      envm['client_mask_i'] = 'bool'
+      skip = ctx.expr(sk.test, envm, 'bool')[0]
+      _need(set(ctx.idx) == {'client_mask'}, 'the skip test reads block.client_mask[...] only')
+      out.append('(* if %s: continue *)\nDefinition pmap_skip (client_mask_i : bool) : bool := %s.' % (_src(sk.test), skip))
+      ok = (isinstance(sp, ast.Assign) and _src(sp.targets[0]) == '(client_output, step_results)' and
+            isinstance(sp.value, ast.Call) and dotted(sp.value.func) == 'jax.tree_util.tree_map' and len(sp.value.args) == 2 and
+            isinstance(sp.value.args[0], ast.Lambda) and len(sp.value.args[0].args.args) == 1 and
+            isinstance(sp.value.args[0].body, ast.Subscript) and
+            _is_name(sp.value.args[0].body.value, sp.value.args[0].args.args[0].arg) and
+            not isinstance(sp.value.args[0].body.slice, ast.Slice) and
+            _src(sp.value.args[1]) == '(p_client_output, p_step_results)')
+      _need(ok, 'client_output, step_results = tree_map(lambda x: x[<e>], (p_client_output, p_step_results))')
+      split_ix = ctx.expr(sp.value.args[0].body.slice, env, 'Z')[0]
+      ok = (isinstance(ap, ast.Expr) and isinstance(ap.value, ast.Call) and dotted(ap.value.func) == 'outputs.append' and
+            len(ap.value.args) == 1 and isinstance(ap.value.args[0], ast.Tuple) and len(ap.value.args[0].elts) == 3 and
+            _is_name(ap.value.args[0].elts[1], 'client_output'))
+      _need(ok, 'outputs.append((block.client_id[...], client_output, step_results[...]))')
+      enva = dict(env)
+      enva.update({'client_id_i': 'cid', 'num_batches_i': 'Z'})
+      cid, ty = ctx.expr(ap.value.args[0].elts[0], enva)
+      _need(ty == 'cid' and cid == 'client_id_i', 'first component is block.client_id[...]')
+      sl = ap.value.args[0].elts[2]
+      ok = (isinstance(sl, ast.Subscript) and _is_name(sl.value, 'step_results') and isinstance(sl.slice, ast.Slice) and
+            sl.slice.step is None and sl.slice.upper is not None)
+      _need(ok, 'step_results[lo:hi]')
+      envs = dict(env)
+      envs['num_batches_i'] = 'Z'
+      lo = '0' if sl.slice.lower is None else ctx.expr(sl.slice.lower, envs, 'Z')[0]
+      hi = ctx.expr(sl.slice.upper, envs, 'Z')[0]
+      _need(set(ctx.idx) == {'client_mask', 'client_id', 'num_batches'}, 'block.client_mask / client_id / num_batches are indexed')
+      out.append('(* %s *)\nDefinition pmap_truncate {A : Type} (step_results : list A) (num_batches_i : Z) : list A :=\n'
+                 '  py_slice step_results %s %s.' % (_src(sl), lo, hi))
+      lets.append(
+          '(* for %s in %s: %s; %s; %s *)\n'
+          '  let outputs := fold_left (fun outputs (%s : Z) => outputs ++\n'
+          '      match nth_error client_mask (Z.to_nat %s), nth_error client_id (Z.to_nat %s),\n'
+          '            nth_error p_client_output (Z.to_nat %s), nth_error num_batches (Z.to_nat %s) with\n'
+          '      | Some client_mask_i, Some client_id_i, Some client_output, Some num_batches_i =>\n'
+          '          if pmap_skip client_mask_i then []\n'
+          '          else let step_results := lane_results (Z.to_nat %s) p_step_results in\n'
+          '               [(client_id_i, client_output, pmap_truncate step_results num_batches_i)]\n'
+          '      | _, _, _, _ => []\n'
+          '      end) (py_range %s %s %s) outputs in'
+          % (iv, _src(s.iter), _src(sk).replace('\n', ' '), _src(sp), _src(ap), iv, ctx.idx['client_mask'], ctx.idx['client_id'],
+             split_ix, ctx.idx['num_batches'], split_ix, ra[0], ra[1], ra[2]))
+      continue
+    if isinstance(s, ast.For) and seen_loop and not seen_yield:
+      seen_yield = True
+      ok = (not s.orelse and isinstance(s.iter, ast.Call) and dotted(s.iter.func) == 'range' and len(s.iter.args) == 1 and
+            len(s.body) == 3 and _src(s.body[0]) == 'client_id, client_output, step_results = outputs.pop()')
+      _need(ok, 'for _ in range(len(outputs)): client_id, client_output, step_results = outputs.pop(); ...')
+      n = ctx.expr(s.iter.args[0], {'len_outputs': 'Z'}, 'Z')[0]
+      dp = s.body[1]
+      ok = (isinstance(dp, ast.Assign) and _src(dp.targets[0]) == '(client_output, step_results)' and
+            isinstance(dp.value, ast.Call) and dotted(dp.value.func) == 'jax.tree_util.tree_map' and len(dp.value.args) == 2 and
+            _src(dp.value.args[0]) == 'lambda x: jax.device_put(x, devices[0])' and
+            _src(dp.value.args[1]) == '(client_output, step_results)')
+      _need(ok, 'client_output, step_results = tree_map(lambda x: jax.device_put(x, devices[0]), (client_output, step_results))')
+      y = s.body[2]
+      ok = (isinstance(y, ast.Expr) and isinstance(y.value, ast.Yield) and isinstance(y.value.value, ast.Tuple) and
+            len(y.value.value.elts) == 3 and all(isinstance(e, ast.Name) and e.id in ('client_id', 'client_output', 'step_results')
+                                                 for e in y.value.value.elts))
+      _need(ok, 'yield (client_id, client_output, step_results)')
+      ys = [e.id for e in y.value.value.elts]
+      lets.append('(* for _ in %s: %s; device_put; %s *)\n'
+                  '  let len_outputs := Z.of_nat (length outputs) in\n'
+                  "  map (fun '(client_id, client_output, step_results) => (%s, %s, %s))\n"
+                  '      (pop_yield outputs (Z.to_nat %s))' % (_src(s.iter), _src(s.body[0]), _src(y), ys[0], ys[1], ys[2], n))
+      continue
+    raise Unsupported('pmap run: unexpected statement ' + _src(s)[:80])
+  _need(seen_loop and seen_yield, 'the split loop and the pop / yield loop')
+  return ('Definition pmap_emit {Id Out R : Type} (client_id : list (option Id)) (client_mask : list bool)\n'
+          '    (num_batches : list Z) (p_client_output : list Out) (p_step_results : list (list R))\n'
+          '    : list (option Id * Out * list R) :=\n'
+          '  let len_client_id := Z.of_nat (length client_id) in\n'
+          '  let len_client_mask := Z.of_nat (length client_mask) in\n'
+          '  let len_num_batches := Z.of_nat (length num_batches) in\n  ' + '\n  '.join(lets) + '.')
 
 
 def emit_choice(tree):
@@ -461,10 +575,75 @@ def emit_choice(tree):
   return '\n\n'.join(out)
 
 
+def _reraises(handlers):
+  """except Exception as e: raise ForEachClientError(...) from e"""
+  return (len(handlers) == 1 and len(handlers[0].body) == 1 and isinstance(handlers[0].body[0], ast.Raise) and
+          isinstance(handlers[0].body[0].exc, ast.Call) and dotted(handlers[0].body[0].exc.func) == 'ForEachClientError')
+
+
+def _try_of(stmt, inner_src):
+  return (isinstance(stmt, ast.Try) and not stmt.orelse and not stmt.finalbody and len(stmt.body) == 1 and
+          _src(stmt.body[0]) == inner_src and _reraises(stmt.handlers))
+
+
+def emit_loops(tree):
+  """The sequential loops of the jit and debug backends and the public wrapper: recognised
+  (exact statement shapes), reported as flags the model's accumulator loops rely on."""
+  out = []
+  # jit: for client in clients: output, step_results = run_client(...); yield client_id, output, step_results
+  jb = _body(find_def(tree, 'ForEachClientJitBackend.__call__'))
+  run = _body(_find_fdef(jb, 'run'))
+  ok = (len(run) == 1 and isinstance(run[0], ast.For) and _src(run[0].target) == '(client_id, client_batches, client_input)' and
+        _src(run[0].iter) == 'clients' and
+        [_src(x) for x in run[0].body] == ['output, step_results = run_client(shared_input, client_batches, client_input)',
+                                           'yield (client_id, output, step_results)'])
+  out.append('Definition jit_run_is_sequential_loop : bool := %s.' % ('true' if ok else 'false'))
+  # debug: with jax.disable_jit(): the same loop, each client function call wrapped in try / re-raise
+  db = _body(find_def(tree, 'ForEachClientDebugBackend.__call__'))
+  run = _body(_find_fdef(db, 'run'))
+  ok = (len(run) == 1 and isinstance(run[0], ast.With) and len(run[0].items) == 1 and
+        _src(run[0].items[0].context_expr) == 'jax.disable_jit()' and len(run[0].body) == 1 and isinstance(run[0].body[0], ast.For))
+  if ok:
+    loop = run[0].body[0]
+    ok = (_src(loop.target) == '(client_id, client_batches, client_input)' and _src(loop.iter) == 'clients' and len(loop.body) == 5 and
+          _src(loop.body[0]) == 'step_results = []' and _try_of(loop.body[1], 'state = client_init(shared_input, client_input)') and
+          isinstance(loop.body[2], ast.For) and _is_name(loop.body[2].target, 'batch') and _src(loop.body[2].iter) == 'client_batches' and
+          len(loop.body[2].body) == 2 and _try_of(loop.body[2].body[0], 'state, step_result = client_step(state, batch)') and
+          _src(loop.body[2].body[1]) == 'step_results.append(step_result)' and
+          _try_of(loop.body[3], 'output = client_final(shared_input, state)') and
+          _src(loop.body[4]) == 'yield (client_id, output, step_results)')
+  out.append('Definition debug_run_is_sequential_loop : bool := %s.' % ('true' if ok else 'false'))
+  # for_each_client: binds the backend through get_for_each_client_backend() when it is CALLED; without step
+  # results wraps the step as (client_step(...), ()) and drops the third component of every yield
+  fb = _body(find_def(tree, 'for_each_client'))
+  ok = (len(fb) == 6 and _src(fb[0]) == 'for_each_client_backend_ = get_for_each_client_backend()')
+  out.append('Definition api_binds_via_get : bool := %s.' % ('true' if ok else 'false'))
+  ok = ok and (isinstance(fb[1], ast.If) and _src(fb[1].test) == 'with_step_result' and not fb[1].orelse and
+               [_src(x) for x in fb[1].body] == ['return for_each_client_backend_(client_init, client_step, client_final)'])
+  out.append('Definition api_passes_step_results_through : bool := %s.' % ('true' if ok else 'false'))
+  ok = ok and (isinstance(fb[2], ast.FunctionDef) and fb[2].name == 'client_step_with_result' and
+               [_src(x) for x in _body(fb[2])] == ['return (client_step(client_step_state, batch), ())'] and
+               _src(fb[3]) == 'func = for_each_client_backend_(client_init, client_step_with_result, client_final)' and
+               isinstance(fb[4], ast.FunctionDef) and fb[4].name == 'run' and len(_body(fb[4])) == 1 and
+               isinstance(_body(fb[4])[0], ast.For) and _src(_body(fb[4])[0].target) == '(client_id, client_output, _)' and
+               _src(_body(fb[4])[0].iter) == 'func(shared_input, clients)' and
+               [_src(x) for x in _body(fb[4])[0].body] == ['yield (client_id, client_output)'] and _src(fb[5]) == 'return run')
+  out.append('Definition api_drops_unit_step_results : bool := %s.' % ('true' if ok else 'false'))
+  # pmap: caller arrays reach the pmapped (donating) functions only as np.stack copies
+  ds = _body(find_def(tree, '_device_put_sharded'))
+  ok = (len(ds) == 3 and isinstance(ds[2], ast.Return) and
+        _src(ds[2].value) == ('jax.tree_util.tree_map(lambda *xs: jax.device_put(np.stack([np.asarray(x) for x in xs]), '
+                              'sharding), *shards)'))
+  dr = _body(find_def(tree, '_device_put_replicated'))
+  ok = ok and [_src(x) for x in dr] == ['return _device_put_sharded([x] * len(devices), devices)']
+  out.append('Definition pmap_inputs_are_stacked_copies : bool := %s.' % ('true' if ok else 'false'))
+  return '\n\n'.join(out)
+
+
 MODULES = {
     'Gen_for_each_client': {
         'src': SRC,
-        'preamble': '',
-        'items': [emit_blockify, emit_jit, emit_pmap, emit_choice],
+        'preamble': 'From FV Require Import Common.C02Lib.\n',
+        'items': [emit_blockify, emit_jit, emit_pmap, emit_choice, emit_loops],
     },
 }
